@@ -52,7 +52,7 @@ class C06(Prop):
             "combinations with a fixed battery of histories; random ones with random histories), the extension header spelled "
             "with varying parameter order / whitespace / quoting / omitted defaults; histories of 1-10 steps: client sends "
             "(text/binary, compress True/False/default) and server sends (compressed or not, fragmented over the compressed "
-            "bytes incl. empty fragments, control frames interleaved, sync/full flushes mid-message, levels 0-9); payloads empty / "
+            "bytes incl. empty fragments, control frames interleaved, sync/full flushes mid-message, levels 0-9, messages ended by a BFINAL block + 0x00 as in RFC 7692 7.2.3.4); payloads empty / "
             "incompressible / repetitive / repeats and extensions of earlier messages of the same direction / longer than the "
             "window / > 64 KiB. Oracle: an independent RFC 7692 peer (harness/deflateref.py) that honours the negotiated windows "
             "(inflating in 1-byte output steps) over the whole history. Also: without negotiation RSV1 is never set; invalid "
@@ -95,6 +95,8 @@ class C06(Prop):
             "inter": st.lists(st.tuples(st.integers(0, 8), st.sampled_from(["ping", "pong"])).map(list), max_size=2),
             "flush": st.lists(st.integers(1, 3000), max_size=2), "full_flush": st.booleans(),
             "level": st.sampled_from([-1, -1, 0, 1, 6, 9]),
+            # the message ends with a BFINAL block + 0x00 (RFC 7692 7.2.3.4)
+            "final": gen.weighted([(5, st.just(False)), (1, st.just(True))]),
         })
         return st.fixed_dictionaries({
             "cfg": cfg, "spelling": sp,
@@ -112,7 +114,7 @@ class C06(Prop):
                     for snct in (False, True):
                         for cnct in (False, True):
                             cfg = {"sb": sb, "cb": cb, "snct": snct, "cnct": cnct}
-                            for h in range(3):
+                            for h in range(len(self.BATTERY)):
                                 yield {"cfg": cfg, "battery": h}
 
         def invalid():
@@ -156,6 +158,20 @@ class C06(Prop):
          {"dir": "c", "kind": "text", "payload": ["hex", "61"], "compress": True, "at": 0},
          {"dir": "s", "kind": "text", "payload": ["hex", "61"], "compressed": True, "frag": [], "inter": [], "flush": [],
           "full_flush": True, "level": -1}],
+        # a peer that ends messages with a BFINAL block (RFC 7692 7.2.3.4), mixed with sync-flushed ones
+        [{"dir": "s", "kind": "text", "payload": ["rep", 300, 21], "compressed": True, "frag": [], "inter": [], "flush": [],
+          "full_flush": False, "level": -1, "final": True},
+         {"dir": "s", "kind": "text", "payload": ["same", 0], "compressed": True, "frag": [], "inter": [], "flush": [],
+          "full_flush": False, "level": -1},
+         {"dir": "s", "kind": "binary", "payload": ["rand", 200, 22], "compressed": True, "frag": [4, 30], "inter": [[0, "ping"]],
+          "flush": [50], "full_flush": False, "level": 6, "final": True},
+         {"dir": "s", "kind": "binary", "payload": ["same", 1], "compressed": True, "frag": [], "inter": [], "flush": [],
+          "full_flush": False, "level": -1, "final": True},
+         {"dir": "s", "kind": "text", "payload": ["hex", ""], "compressed": True, "frag": [], "inter": [], "flush": [],
+          "full_flush": False, "level": -1, "final": True},
+         {"dir": "s", "kind": "text", "payload": ["cat", 0, 200, ["rep", 100, 23]], "compressed": True, "frag": [], "inter": [],
+          "flush": [], "full_flush": False, "level": -1},
+         {"dir": "c", "kind": "text", "payload": ["rep", 100, 24], "compress": True, "at": 2}],
     ]
 
     # ------------------------------------------------------------------
@@ -203,8 +219,10 @@ class C06(Prop):
             comp = step["compressed"] and negotiated
             body = raw
             if comp:
-                body = peer.compress(raw, step["level"], step["flush"], step["full_flush"])
+                body = peer.compress(raw, step["level"], step["flush"], step["full_flush"], step.get("final", False))
                 n_s_comp += 1
+                if step.get("final"):
+                    labels.add("bfinal_message")
             want = raw
             if comp and damage is not None and damage[0] % len(case["steps"]) == s_index and body:
                 b = bytearray(body)
@@ -219,7 +237,7 @@ class C06(Prop):
                     want = got       # history differs from the compressor's after a damaged message
                 elif got != raw:
                     return failed("harness", "reference peer cannot inflate its own output", labels, False)
-            if cfg["snct"]:
+            if cfg["snct"] or (comp and ref_inflater.eof):
                 ref_inflater = zlib.decompressobj(-cfg["sb"])
             s_index += 1
             cuts = sorted(min(max(c, 0), len(body)) for c in step["frag"])
@@ -365,11 +383,13 @@ class C06(Prop):
     @staticmethod
     def reference_inflate(inflater, body, cfg):
         """What a zlib inflater with the negotiated window makes of these bytes: bytes,
-        None (error) or 'unspecified' (BFINAL / trailing data)."""
+        None (error) or 'unspecified' (BFINAL followed by anything but the single 0x00 octet / trailing data)."""
         try:
             out = inflater.decompress(body + deflateref.TAIL)
         except zlib.error:
             return None
+        if inflater.eof and inflater.unused_data == b"\x00" + deflateref.TAIL:
+            return out     # RFC 7692 7.2.3.4: BFINAL block + 0x00; the caller starts a new inflater
         if inflater.eof or inflater.unused_data:
             return "unspecified"
         return out
